@@ -29,7 +29,7 @@ ASSUMPTIONS = [
 ]
 BUDGET = {
     "quick": {"examples": 150, "workers": 8, "time_cap": 70},
-    "thorough": {"examples": 5000, "workers": 14, "time_cap": 1500},
+    "thorough": {"examples": 5000, "workers": 14, "time_cap": 900},
 }
 BAD = ["float-comment", "none-in-announce", "surrogate-comment", "surrogate-url", "none-in-url-list", "float-source"]
 
